@@ -1,5 +1,8 @@
 (* L-conv model side; same case lines as harness/src/bin/conv.rs.  Numbers are read as
-   `m:e` (m * 2^e) or `num/den`, printed as `num/den` (reduced). *)
+   `m:e` (m * 2^e) or `num/den`, printed as `num/den` (reduced).
+   `RM <system> <recipe dump>`: Model/RecipeConvert.v on the dump the harness printed for an RC case
+   (the model has no parser: it converts the recipe value the implementation built);
+   output `<recipe dump after> | E <error kinds>`. *)
 let q_of_tok (t : string) : q =
   match String.index_opt t ':' with
   | Some i -> q_of_m_e (String.sub t 0 i) (int_of_string (String.sub t (i + 1) (String.length t - i - 1)))
@@ -54,6 +57,61 @@ let show_cv (r : (cvalue * uref) result outcome) : string =
   | Done (Ok (CNum v, (_, u))) -> "ok " ^ tok_of_q v ^ " " ^ sym u
   | Done (Ok (CRange (s, e), (_, u))) -> "ok " ^ tok_of_q s ^ " " ^ tok_of_q e ^ " " ^ sym u
 
+(* ---- ScaledRecipe::convert: the dump of harness/src/bin/conv.rs (recipe_dump), frames kept as strings ---- *)
+let parse_number (t : string) : number =
+  let n = String.length t in
+  if n > 3 && t.[0] = 'R' && t.[1] = '(' then Regular (q_of_tok (String.sub t 2 (n - 3)))
+  else if n > 3 && t.[0] = 'F' && t.[1] = '(' then
+    (match String.split_on_char ',' (String.sub t 2 (n - 3)) with
+     | [w; nu; d; e] -> Fraction (n_of_dec w, n_of_dec nu, n_of_dec d, q_of_tok e)
+     | _ -> failwith "fraction token")
+  else failwith ("number token: " ^ t)
+
+let opt_unit u = if u = "-" then None else Some (str_of_hex u)
+
+let parse_slot_quantity (l : string list) : quantity option =
+  match l with
+  | ["-"] -> None
+  | ["n"; a; u] -> Some { q_value = VNumber (parse_number a); q_unit = opt_unit u }
+  | ["r"; a; b; u] -> Some { q_value = VRange (parse_number a, parse_number b); q_unit = opt_unit u }
+  | ["t"; x; u] -> Some { q_value = VText (str_of_hex x); q_unit = opt_unit u }
+  | _ -> failwith "quantity slot"
+
+let rec split_slots (toks : string list) (cur : string list) : string list list =
+  match toks with
+  | [] -> [List.rev cur]
+  | "/" :: r -> List.rev cur :: split_slots r []
+  | t :: r -> split_slots r (t :: cur)
+
+let parse_recipe_dump (toks : string list) : (string, string, string) recipe =
+  let r = ref { r_frame = ""; r_ingredients = []; r_cookware = []; r_timers = []; r_inline = [];
+                r_data = DefaultScaling } in
+  List.iter (fun slot ->
+    match slot with
+    | ["M"; h] -> r := { !r with r_frame = h }
+    | "I" :: fr :: q ->
+        r := { !r with r_ingredients = !r.r_ingredients @ [{ ig_frame = fr; ig_quantity = parse_slot_quantity q }] }
+    | ["C"; fr] -> r := { !r with r_cookware = !r.r_cookware @ [{ ck_frame = fr; ck_quantity = None }] }
+    | "T" :: nm :: q ->
+        r := { !r with r_timers = !r.r_timers @ [{ tm_name = opt_unit nm; tm_quantity = parse_slot_quantity q }] }
+    | "Q" :: q ->
+        (match parse_slot_quantity q with
+         | Some x -> r := { !r with r_inline = !r.r_inline @ [x] }
+         | None -> failwith "inline slot")
+    | _ -> failwith "recipe dump slot") (split_slots toks []);
+  !r
+
+let optq_dump = function None -> "-" | Some q -> q_dump q
+
+let recipe_dump (r : (string, string, string) recipe) : string =
+  String.concat " / "
+    (("M " ^ r.r_frame)
+     :: List.map (fun i -> "I " ^ i.ig_frame ^ " " ^ optq_dump i.ig_quantity) r.r_ingredients
+     @ List.map (fun k -> "C " ^ k.ck_frame) r.r_cookware
+     @ List.map (fun t -> "T " ^ (match t.tm_name with Some n -> hex_of_str n | None -> "-") ^ " "
+                          ^ optq_dump t.tm_quantity) r.r_timers
+     @ List.map (fun q -> "Q " ^ q_dump q) r.r_inline)
+
 let () =
   drive (fun f ->
     match f with
@@ -97,6 +155,13 @@ let () =
          | Panic _ -> "panic"
          | Done (q', Ok _) -> "ok ; " ^ q_dump q'
          | Done (q', Err e) -> "err " ^ err_name e ^ " ; " ^ q_dump q')
+    | "RM" :: sy :: dump ->
+        (* ScaledRecipe::convert on the recipe the implementation dumped *)
+        (match recipe_convert new_approx conv (parse_sys sy) (parse_recipe_dump dump) with
+         | Panic site -> "panic " ^ string_of_n site
+         | Done (r', errs) ->
+             recipe_dump r' ^ " | E " ^
+             (if errs = [] then "-" else String.concat "," (List.map err_name errs)))
     | ["ST"; i] ->
         (match List.nth_opt standards_x (int_of_string i) with
          | None -> "none"
